@@ -352,6 +352,8 @@ class Evaluator:
             if n > self.max_paths:
                 raise AnalysisError(f"path explosion in {fn.name} (> {self.max_paths})")
             st = State(self.hooks, assign)
+            if hasattr(self.hooks, "begin_path"):
+                self.hooks.begin_path()  # hooks that keep a model state of their own start every path from the same state
             if body is None:
                 for k_, v_ in _unpassed_new_defaults(self.fi).items():
                     st.env[k_] = v_
@@ -371,7 +373,10 @@ class Evaluator:
             if sig in seen:
                 continue
             seen.add(sig)
-            results.append(Path(dict(st.used), st.effects, res, dict(st.env)))
+            env_ = dict(st.env)
+            if hasattr(self.hooks, "end_path"):
+                env_["__model__"] = self.hooks.end_path()
+            results.append(Path(dict(st.used), st.effects, res, env_))
         return results
 
     def _run_fn_body(self, body, st):
@@ -1003,6 +1008,13 @@ class Evaluator:
             return r
         if ftext == "len" and len(args) == 1 and not kwargs and isinstance(args[0], str):
             return len(args[0])  # length of a known text
+        if ftext == "bool" and len(args) == 1 and not kwargs:
+            a0_ = args[0]
+            if a0_ is None or isinstance(a0_, (bool, int, float, str)):
+                return bool(a0_)
+            if isinstance(a0_, (list, tuple)) and not any(isinstance(x, Sym) and x.text.startswith("*") for x in a0_):
+                return len(a0_) > 0
+            return self.truth(c.args[0], st)  # bool(x) is the truth value of x
         if isinstance(c.func, ast.Attribute) and not kwargs and c.func.attr in ("lower", "upper", "strip", "lstrip", "rstrip", "startswith", "endswith", "isdigit", "isalpha", "isidentifier") and all(isinstance(a, str) for a in args):
             recv_ = self.ev(c.func.value, st)
             if isinstance(recv_, str):
